@@ -79,6 +79,8 @@ use types::{CollectTypesMetadata, CollectTypesMetadataContext, LogId, TypeMetada
 
 pub use semantic_analysis::namespace::{self, Namespace};
 pub mod types;
+#[cfg(fuellabs_sway_verif)]
+pub mod verif;
 
 pub use has_changes::HasChanges;
 use sway_error::error::{CompileError, TrivialCheckDiagType};
@@ -1807,6 +1809,8 @@ fn check_should_abort(
     handler: &Handler,
     retrigger_compilation: Option<Arc<AtomicBool>>,
 ) -> Result<(), ErrorEmitted> {
+    #[cfg(fuellabs_sway_verif)]
+    verif::abort_check_point(retrigger_compilation.is_some());
     if let Some(ref retrigger_compilation) = retrigger_compilation {
         if retrigger_compilation.load(Ordering::SeqCst) {
             return Err(handler.cancel());
